@@ -329,7 +329,31 @@ func genC09() *rapid.Generator[Case] {
 	return rapid.Custom(func(t *rapid.T) Case {
 		c := GenHistory(t, c09Params)
 		addReservationStories(t, &c, true)
+		if rapid.IntRange(0, 2).Draw(t, "releaseVsReload") == 0 && len(c.Ops) > 0 {
+			// an administrator releases the IP a gone pod left behind while the configuration is reloaded: the release has written
+			// to the store (or is about to) when the reload rebuilds the tables
+			arg := func(k string) Op {
+				return Op{K: k, A: rapid.IntRange(0, 7).Draw(t, "va9"), B: rapid.IntRange(0, 63).Draw(t, "vb9"), C: rapid.IntRange(0, 7).Draw(t, "vc9")}
+			}
+			var sch []int
+			for i, k := 0, 8+uniformInt(t, 10, "releasePrefix9"); i < k; i++ {
+				sch = append(sch, 0)
+			}
+			for i := 0; i < 80; i++ {
+				sch = append(sch, 1)
+			}
+			story := []Op{arg("delete"), {K: "deliver"}, {K: "deliver"}, {K: "episode", Sub: []Op{arg("apireleasable"), arg("reload")}, Sched: sch},
+				arg("create"), arg("sched")}
+			at := rapid.IntRange(0, len(c.Ops)).Draw(t, "rvrAt")
+			if c.FaultAt != nil && c.FaultAt.Op >= at {
+				c.FaultAt.Op += len(story)
+			}
+			c.Ops = append(c.Ops[:at:at], append(story, c.Ops[at:]...)...)
+		}
 		for i := range c.Ops {
+			if c.Ops[i].K == "episode" && len(c.Ops[i].Sub) == 2 && c.Ops[i].Sub[0].K == "apireleasable" {
+				continue // the story above keeps its actors
+			}
 			if c.Ops[i].K == "episode" && rapid.IntRange(0, 2).Draw(t, "reloadEpisode") > 0 {
 				// a reload concurrently with allocate / release / pod-IP sync / reservation events
 				other := rapid.SampledFrom([]string{"sched", "sched", "unbind", "syncips", "fipevent", "apirelease", "bind"}).Draw(t, "vsReload")
